@@ -115,11 +115,20 @@ func descendingPriority(cc *ssa.CallCommon) string {
 			cl, _ = v.Fn.(*ssa.Function)
 		case *ssa.Function:
 			cl = v
+		case *ssa.MakeInterface:
+			// sort.Stable(byPriority(s)): the comparator is the Less method of the argument's type
+			if prog := v.Parent().Prog; prog != nil {
+				ms := prog.MethodSets.MethodSet(v.X.Type())
+				if sel := ms.Lookup(nil, "Less"); sel != nil {
+					cl = prog.MethodValue(sel)
+				}
+			}
 		}
 	}
-	if cl == nil || len(cl.Params) != 2 {
-		return "comparator is not a two-argument function literal: cannot decide the order"
+	if cl == nil || len(cl.Params) < 2 || len(cl.Params) > 3 {
+		return "comparator is not a two-argument function literal or a Less method: cannot decide the order"
 	}
+	off := len(cl.Params) - 2 // a method's receiver comes first
 	for _, b := range cl.Blocks {
 		for _, in := range b.Instrs {
 			r, ok := in.(*ssa.Return)
@@ -130,7 +139,7 @@ func descendingPriority(cc *ssa.CallCommon) string {
 			if !ok {
 				return "comparator does not return a single comparison"
 			}
-			li, lj := indexParamOf(cmp.X, cl), indexParamOf(cmp.Y, cl)
+			li, lj := indexParamOf(cmp.X, cl)-off, indexParamOf(cmp.Y, cl)-off
 			if li < 0 || lj < 0 || !loadsField(cmp.X, "Priority") || !loadsField(cmp.Y, "Priority") {
 				return "comparator does not compare the Priority fields of elements i and j"
 			}
@@ -212,15 +221,65 @@ func firstLoadOfField(fn *ssa.Function, field string) *ssa.BasicBlock {
 // DispatchOrder: handlePacket runs generic handlers before id-specific ones
 // and stops at the first error.
 func (c *Ctx) DispatchOrder() []core.Ob {
-	fn := c.Fn("bot.(*Client).handlePacket")
-	if fn == nil {
-		return []core.Ob{missingFn("dispatch-order", "bot.(*Client).handlePacket")}
+	// the two handler tables of bot.Events, by type: the generic one is a slice of handlers,
+	// the id-specific one a slice (or map) of such slices
+	generic, specific := "", ""
+	if pk := c.P.Pkg("bot"); pk != nil {
+		if tn, ok := pk.Types.Scope().Lookup("Events").(*types.TypeName); ok {
+			if st, ok := tn.Type().Underlying().(*types.Struct); ok {
+				for i := 0; i < st.NumFields(); i++ {
+					switch t := st.Field(i).Type().Underlying().(type) {
+					case *types.Slice:
+						if _, inner := t.Elem().Underlying().(*types.Slice); inner {
+							specific = st.Field(i).Name()
+						} else if _, isStruct := t.Elem().Underlying().(*types.Struct); isStruct {
+							generic = st.Field(i).Name()
+						}
+					case *types.Map:
+						if _, inner := t.Elem().Underlying().(*types.Slice); inner {
+							specific = st.Field(i).Name()
+						}
+					case *types.Array:
+						if _, inner := t.Elem().Underlying().(*types.Slice); inner {
+							specific = st.Field(i).Name()
+						}
+					}
+				}
+			}
+		}
+	}
+	// the dispatcher: the function of package bot that reads both tables and calls handler functions
+	var fn *ssa.Function
+	nd := 0
+	for _, f := range c.Funcs() {
+		if !inPkgs(f, "bot") || generic == "" || specific == "" {
+			continue
+		}
+		if firstLoadOfField(f, generic) == nil || firstLoadOfField(f, specific) == nil {
+			continue
+		}
+		dyn := callsIn(f, func(n string, cc *ssa.CallCommon) bool {
+			if cc.IsInvoke() || cc.StaticCallee() != nil {
+				return false
+			}
+			_, isB := cc.Value.(*ssa.Builtin)
+			return !isB
+		})
+		if len(dyn) > 0 {
+			fn = f
+			nd++
+		}
+	}
+	if fn == nil || nd != 1 {
+		o := c.ordOb("dispatch-order:generic-before-specific", "the loop over generic handlers completes before the loop over id-specific handlers starts", nil)
+		o.Status, o.Got = core.Violated, fmt.Sprintf("%d functions of package bot read both handler tables of Events (%q, %q) and call handlers: the dispatcher is not recognised", nd, generic, specific)
+		return []core.Ob{o}
 	}
 	o := c.ordOb("dispatch-order:generic-before-specific", "the loop over generic handlers completes before the loop over id-specific handlers starts", fn)
-	g, h := firstLoadOfField(fn, "generic"), firstLoadOfField(fn, "handlers")
+	g, h := firstLoadOfField(fn, generic), firstLoadOfField(fn, specific)
 	switch {
 	case g == nil || h == nil:
-		o.Status, o.Got = core.Violated, "handler tables generic/handlers not both read in handlePacket"
+		o.Status, o.Got = core.Violated, "handler tables not both read in the dispatcher"
 	case !(g.Dominates(h) && g != h) || reaches(h, g):
 		o.Status, o.Got = core.Violated, "the read of the id-specific table is not strictly after the generic loop"
 	}
@@ -375,6 +434,13 @@ func (c *Ctx) CompressionSwitch() []core.Ob {
 	if fn == nil {
 		return []core.Ob{missingFn("compression-switch:server", "server.(*MojangLoginHandler).AcceptLogin")}
 	}
+	// the code that switches compression on: AcceptLogin or the helper of the package it moved to
+	for _, g := range c.withPkgCallees(fn, 2) {
+		if len(callsIn(g, func(n string, _ *ssa.CallCommon) bool { return strings.HasSuffix(n, "/net.(Conn).SetThreshold") })) > 0 {
+			fn = g
+			break
+		}
+	}
 	o := c.ordOb("compression-switch:server", "SetThreshold is called exactly after the set-compression packet was written, before any other packet is read or written", fn)
 	// forward dataflow: 0 before, 1 compression packet written, 2 threshold set; may-states as bitset
 	type st = uint8
@@ -434,15 +500,23 @@ func (c *Ctx) CompressionSwitch() []core.Ob {
 	obs = append(obs, o)
 
 	// SetThreshold is conditional on Threshold >= 0 and passes the same value that was sent
-	bf := c.Fn("bot.(*Client).joinLogin")
+	// the bot's login loop: the function of package bot that calls SetThreshold
+	var bf *ssa.Function
+	for _, g := range c.Funcs() {
+		if inPkgs(g, "bot") && len(callsIn(g, func(n string, _ *ssa.CallCommon) bool { return strings.HasSuffix(n, "/net.(Conn).SetThreshold") })) > 0 {
+			if bf == nil || core.FnName(g) < core.FnName(bf) {
+				bf = g
+			}
+		}
+	}
 	if bf == nil {
-		obs = append(obs, missingFn("compression-switch:bot", "bot.(*Client).joinLogin"))
+		obs = append(obs, missingFn("compression-switch:bot", "a function of package bot that calls (*net.Conn).SetThreshold"))
 		return obs
 	}
 	b := c.ordOb("compression-switch:bot", "the bot calls SetThreshold with the scanned threshold in its set-compression case, before the next ReadPacket", bf)
 	sets := callsIn(bf, func(n string, _ *ssa.CallCommon) bool { return strings.HasSuffix(n, "/net.(Conn).SetThreshold") })
 	if len(sets) != 1 {
-		b.Status, b.Got = core.Violated, fmt.Sprintf("%d SetThreshold calls in joinLogin", len(sets))
+		b.Status, b.Got = core.Violated, fmt.Sprintf("%d SetThreshold calls in %s", len(sets), bf.Name())
 	} else {
 		// its argument derives from a location scanned in the same block chain (tainted VarInt)
 		arg := sets[0].Common().Args[1]
@@ -886,18 +960,20 @@ func (c *Ctx) OfflineUUID() []core.Ob {
 		return []core.Ob{missingFn("offline-uuid", "server.(*MojangLoginHandler).AcceptLogin")}
 	}
 	o := c.ordOb("offline-uuid:unconditional", "when OnlineMode is false, every path to the login-success packet passes through offline.NameToUUID(name): the server never adopts a client-chosen UUID", fn)
-	// the branch on the OnlineMode field
+	// the branch on the OnlineMode field: in AcceptLogin or in a helper of the package it calls
 	var branch *ssa.BasicBlock
-	for _, b := range fn.Blocks {
-		if len(b.Instrs) == 0 {
-			continue
-		}
-		iff, ok := b.Instrs[len(b.Instrs)-1].(*ssa.If)
-		if !ok {
-			continue
-		}
-		if loadsField(iff.Cond, "OnlineMode") {
-			branch = b
+	for _, g := range c.withPkgCallees(fn, 2) {
+		for _, b := range g.Blocks {
+			if len(b.Instrs) == 0 {
+				continue
+			}
+			iff, ok := b.Instrs[len(b.Instrs)-1].(*ssa.If)
+			if !ok {
+				continue
+			}
+			if loadsField(iff.Cond, "OnlineMode") && branch == nil {
+				branch = b
+			}
 		}
 	}
 	if branch == nil {
@@ -922,6 +998,13 @@ func (c *Ctx) OfflineUUID() []core.Ob {
 				if strings.HasSuffix(n, "/net.(Conn).WritePacket") {
 					return false
 				}
+			}
+			// leaving the function (towards the caller that writes the packet) without having derived the id
+			if r, ok := in.(*ssa.Return); ok {
+				if n := len(r.Results); n > 0 && isErrorType(r.Results[n-1].Type()) && !isNilConst(r.Results[n-1]) {
+					continue // an error exit
+				}
+				return false
 			}
 		}
 		for _, s := range b.Succs {
